@@ -1,7 +1,7 @@
 """C11 - Editing operations change only what they document and preserve everything else (structural clauses)."""
 from __future__ import annotations
 
-from . import scopes
+from . import scopes, lib_mem
 from . import lib_py, lib_schema, lib_module
 
 LEVEL = "other"
@@ -28,3 +28,4 @@ def run(ctx):
     lib_schema.row_forwarding(ctx, P, funcs=ced)
     lib_module.bytes_length(ctx, P, only=ms)
     lib_module.parsed_used(ctx, P, only=ms)
+    lib_mem.c_lints(ctx, ctx.program(), scopes.lib_scope("C11"))
